@@ -1,3 +1,182 @@
 import Nv.OracleIO
-/-! oracle_c03 — stub (model not built yet): answers `bad-op` to every line. -/
-def main : IO Unit := Nv.oracleMain (fun (_ : Unit) _ => ((), "bad-op")) ()
+import Nv.Model.C03
+import Nv.Gen.C03
+/-!
+oracle_c03 — line protocol (items are printed `key:val`, lists `[a,b]`, absent `nil`).
+
+First line of a script: `new <degree>` (direct `btree.BTree`, handle 0) or `neww` (wrapper `tree.BTree`).
+
+direct:  `ins h k v` `del h k` `delmin h` `delmax h` `get h k` `min h` `max h`  → item | nil
+         `has h k` → true|false      `len h` → n      `clone h` → h<new handle>     `clear h 0|1` → ok
+         `chk h` → ok | bad          (structural invariant)
+         `scan h <name> <p|-> <p2|-> <cont>`  name ∈ asc ascge ascgt asclt ascrange desc descle desclt descgt descrange
+                                              cont ∈ all none lt:K gt:K ne:K      → items handed to the callback
+wrapper: `wins k v` → ok   `wupd old k v` `wups old k v` `wdel k` → true|false   `wget k` → item | nil
+         `wscan <gte|gt|lte|lt> p <filter> n` filter ∈ all none mod3 odd lt:K gt:K → list | panic
+         `wlen` → n   `wchk` → ok | bad   `wconc lo hi` → ok   (concurrent inserts of lo..hi, val 0, with readers)
+The configuration is the one regenerated from the source (`Nv.Gen.C03.cfg`).
+-/
+open Nv Nv.C03
+
+structure St where
+  wrapper : Bool
+  trees : List Tree
+
+def cfg : Cfg := Nv.Gen.C03.cfg
+
+/-- strict integers: optional `-`, 1 to 9 digits -/
+def pInt (s : String) : Option Int :=
+  let cs := s.toList
+  let ds := match cs with
+    | '-' :: rest => rest
+    | _ => cs
+  if ds.isEmpty || ds.length > 9 || !ds.all Char.isDigit then none
+  else
+    let n : Nat := ds.foldl (fun a c => a * 10 + (c.toNat - '0'.toNat)) 0
+    match cs with
+    | '-' :: _ => some (-(n : Int))
+    | _ => some (n : Int)
+
+def pNat (s : String) : Option Nat :=
+  match pInt s with
+  | some i => if i < 0 then none else some i.toNat
+  | none => none
+
+def pOptInt (s : String) : Option (Option Int) :=
+  if s == "-" then some none else (pInt s).map some
+
+def showItem (i : Item) : String := s!"{i.key}:{i.val}"
+def showOpt : Option Item → String
+  | none => "nil"
+  | some i => showItem i
+def showItems (l : List Item) : String := showList showItem l
+def showBool (b : Bool) : String := if b then "true" else "false"
+
+/-- `lt:K` continue/accept while key < K, `gt:K` while key > K, `ne:K` while key ≠ K -/
+def pPred (s : String) : Option (Item → Bool) :=
+  if s == "all" then some (fun _ => true)
+  else if s == "none" then some (fun _ => false)
+  else if s == "mod3" then some (fun i => i.key % 3 != 0)
+  else if s == "odd" then some (fun i => i.key % 2 != 0)
+  else if s.startsWith "lt:" then (pInt (s.drop 3).toString).map (fun k => fun i => decide (i.key < k))
+  else if s.startsWith "gt:" then (pInt (s.drop 3).toString).map (fun k => fun i => decide (i.key > k))
+  else if s.startsWith "ne:" then (pInt (s.drop 3).toString).map (fun k => fun i => decide (i.key ≠ k))
+  else none
+
+/-- scan name → argument tuple, and which pivots it needs -/
+def scanArgs (name : String) : Option (ScanArgs × Bool × Bool) :=
+  if name == "asc" then some (argsAscend, false, false)
+  else if name == "ascge" then some (cfg.ascGe, true, false)
+  else if name == "ascgt" then some (cfg.ascGt, true, false)
+  else if name == "asclt" then some (argsAscendLessThan, true, false)
+  else if name == "ascrange" then some (argsAscendRange, true, true)
+  else if name == "desc" then some (argsDescend, false, false)
+  else if name == "descle" then some (cfg.descLe, true, false)
+  else if name == "desclt" then some (cfg.descLt, true, false)
+  else if name == "descgt" then some (argsDescendGreaterThan, true, false)
+  else if name == "descrange" then some (argsDescendRange, true, true)
+  else none
+
+def withTree (s : St) (h : String) (f : Nat → Tree → St × String) : St × String :=
+  if s.wrapper then (s, "bad-op") else
+  match pNat h with
+  | some i => match s.trees[i]? with
+    | some t => f i t
+    | none => (s, "bad-op")
+  | none => (s, "bad-op")
+
+def setTree (s : St) (i : Nat) (t : Tree) : St := { s with trees := s.trees.set i t }
+
+def withW (s : St) (f : Tree → St × String) : St × String :=
+  if !s.wrapper then (s, "bad-op") else
+  match s.trees with
+  | [t] => f t
+  | _ => (s, "bad-op")
+
+def showWalk : WalkOut → String
+  | .items l => showItems l
+  | .panic => "panic"
+
+def step (s : St) (line : String) : St × String :=
+  match words line with
+  | ["new", d] =>
+    match pNat d with
+    | some d => if d < 2 || d > 64 then (s, "bad-op") else (⟨false, [Tree.new d]⟩, "ok")
+    | none => (s, "bad-op")
+  | ["neww"] => (⟨true, [wNew cfg]⟩, "ok")
+  | ["ins", h, k, v] => withTree s h fun i t =>
+    match pInt k, pNat v with
+    | some k, some v => let r := t.replaceOrInsert ⟨k, v⟩; (setTree s i r.1, showOpt r.2)
+    | _, _ => (s, "bad-op")
+  | ["del", h, k] => withTree s h fun i t =>
+    match pInt k with
+    | some k => let r := t.deleteItem (.item k); (setTree s i r.1, showOpt r.2)
+    | none => (s, "bad-op")
+  | ["delmin", h] => withTree s h fun i t => let r := t.deleteItem .min; (setTree s i r.1, showOpt r.2)
+  | ["delmax", h] => withTree s h fun i t => let r := t.deleteItem .max; (setTree s i r.1, showOpt r.2)
+  | ["get", h, k] => withTree s h fun _ t =>
+    match pInt k with
+    | some k => (s, showOpt (t.get k))
+    | none => (s, "bad-op")
+  | ["has", h, k] => withTree s h fun _ t =>
+    match pInt k with
+    | some k => (s, showBool (t.get k).isSome)
+    | none => (s, "bad-op")
+  | ["min", h] => withTree s h fun _ t => (s, showOpt t.min)
+  | ["max", h] => withTree s h fun _ t => (s, showOpt t.max)
+  | ["len", h] => withTree s h fun _ t => (s, toString t.length)
+  | ["chk", h] => withTree s h fun _ t => (s, if t.ok then "ok" else "bad")
+  | ["clone", h] => withTree s h fun _ t =>
+    if s.trees.length ≥ 8 then (s, "bad-op") else
+    ({ s with trees := s.trees ++ [t] }, s!"h{s.trees.length}")
+  | ["clear", h, b] => withTree s h fun i t =>
+    if b == "0" || b == "1" then (setTree s i t.clear, "ok") else (s, "bad-op")
+  | ["scan", h, name, p, p2, cont] => withTree s h fun _ t =>
+    match scanArgs name, pOptInt p, pOptInt p2, pPred cont with
+    | some (a, needP, needP2), some p, some p2, some cont =>
+      if p.isSome != needP || p2.isSome != needP2 then (s, "bad-op")
+      else (s, showItems (t.scan a p p2 cont))
+    | _, _, _, _ => (s, "bad-op")
+  | ["wins", k, v] => withW s fun t =>
+    match pInt k, pNat v with
+    | some k, some v => (⟨true, [wInsert t ⟨k, v⟩]⟩, "ok")
+    | _, _ => (s, "bad-op")
+  | ["wupd", old, k, v] => withW s fun t =>
+    match pInt old, pInt k, pNat v with
+    | some old, some k, some v => let r := wUpdate t old ⟨k, v⟩; (⟨true, [r.1]⟩, showBool r.2)
+    | _, _, _ => (s, "bad-op")
+  | ["wups", old, k, v] => withW s fun t =>
+    match pInt old, pInt k, pNat v with
+    | some old, some k, some v => let r := wUpdateOrInsert t old ⟨k, v⟩; (⟨true, [r.1]⟩, showBool r.2)
+    | _, _, _ => (s, "bad-op")
+  | ["wdel", k] => withW s fun t =>
+    match pInt k with
+    | some k => let r := wDelete t k; (⟨true, [r.1]⟩, showBool r.2)
+    | none => (s, "bad-op")
+  | ["wget", k] => withW s fun t =>
+    match pInt k with
+    | some k => (s, showOpt (wGet t k))
+    | none => (s, "bad-op")
+  | ["wscan", name, p, f, n] => withW s fun t =>
+    match pInt p, pPred f, pInt n with
+    | some p, some f, some n =>
+      if name == "gte" then (s, showWalk (wAscendGte cfg t p f n))
+      else if name == "gt" then (s, showWalk (wAscendGt cfg t p f n))
+      else if name == "lte" then (s, showWalk (wDescendLte cfg t p f n))
+      else if name == "lt" then (s, showWalk (wDescendLt cfg t p f n))
+      else (s, "bad-op")
+    | _, _, _ => (s, "bad-op")
+  | ["wconc", lo, hi] => withW s fun t =>
+    match pInt lo, pInt hi with
+    | some lo, some hi =>
+      if lo > hi || hi - lo > 400 then (s, "bad-op")
+      else
+        -- concurrent inserts of distinct keys commute: any order yields the same set
+        let keys := (List.range ((hi - lo).toNat + 1)).map (fun (i : Nat) => lo + Int.ofNat i)
+        (⟨true, [keys.foldl (fun t k => wInsert t ⟨k, 0⟩) t]⟩, "ok")
+    | _, _ => (s, "bad-op")
+  | ["wlen"] => withW s fun t => (s, toString t.length)
+  | ["wchk"] => withW s fun t => (s, if t.ok then "ok" else "bad")
+  | _ => (s, "bad-op")
+
+def main : IO Unit := oracleMain step ⟨false, []⟩
